@@ -48,6 +48,8 @@ def run(repo, rep):
 def _run(repo, rep):
     alg.reset()
     common.state_rule(repo, rep, [('geodepy.geodesy', 'vincinv')])
+    # 'any ellipsoid': the class keeps the defining constants it is given and derives the rest from them
+    common.ellipsoid_rules(repo, rep, projections=False)
     common.typecheck_rules(repo, rep)
     common.domain_guards(repo, rep, 'geodepy.geodesy', 'vincinv', ['lat1', 'lon1', 'lat2', 'lon2'],
                          {'lat1': (-90, 90), 'lat2': (-90, 90), 'lon1': (-180, 180), 'lon2': (-180, 180)}, 'latitudes -90..90 (poles included) and longitudes -180..180')
